@@ -49,7 +49,11 @@ FinalVerdict ==          \* traces without events (sequential branch of irun, re
        ELSE IF SeqSet(OutIds) # Ids THEN "lost-results"
        ELSE IF ~PayloadOK THEN "wrong-payload"
        ELSE IF ~Tolerate /\ Raises # {} THEN "failure-swallowed"
+       \* Parallel.run(ids, tolerate_fails, strict_error_code): with a strict exit code asked for, failures end in an error of their own
+       ELSE IF Tr.viaRun /\ Tr.strict /\ Raises # {} THEN "strict-exit-code-not-raised-despite-failures"
        ELSE "ok"
+  ELSE IF Tr.end = "strict" THEN
+       IF Tr.viaRun /\ Tr.strict /\ Raises # {} /\ Tolerate THEN "ok" ELSE "strict-error-without-cause"
   ELSE IF Tr.end = "raised" THEN
        IF Tolerate \/ Raises = {} THEN "raised-without-cause"
        ELSE IF ~OutNoDup \/ ~PayloadOK \/ ~(SeqSet(OutIds) \subseteq Ids) THEN "bad-partial-delivery"
